@@ -108,6 +108,74 @@ def patch_crosshair_bitops():
     cls._vf_patched = True
 
 
+def install_codecs():
+    """CrossHair (0.0.110) has symbolic codecs for ascii / latin-1 / utf-8 only, and its strict-mode encoder REALISES the input string
+    before raising UnicodeEncodeError.  Two additions (sym mode only):
+      * a symbolic utf-16-be encoder (BMP code unit, surrogate pair above 0xffff, lone surrogates are an encoding error);
+      * strict-mode encode errors are raised without realising the input (pycdlib only catches the exception, never inspects it)."""
+    if not SYM:
+        return
+    import codecs
+    from crosshair.libimpl.builtinslib import SymbolicBytes
+    from crosshair.libimpl.encodings import _encutil
+    from crosshair.libimpl.encodings._encutil import MidChunkError, StemEncoder
+    if getattr(StemEncoder, '_vf_patched', False):
+        return
+
+    class Utf16BeStemEncoder(StemEncoder):
+        encoding_name = 'utf-16-be'
+
+        @classmethod
+        def _encode_chunk(cls, string, start):
+            out = []
+            for idx in range(start, len(string)):
+                cp = ord(string[idx])
+                if cp < 0xd800:
+                    out.append(cp // 256)
+                    out.append(cp % 256)
+                elif cp < 0xe000:
+                    return (SymbolicBytes(out), idx, MidChunkError('surrogates not allowed'))
+                elif cp < 0x10000:
+                    out.append(cp // 256)
+                    out.append(cp % 256)
+                else:
+                    v = cp - 0x10000
+                    hi = 0xd800 + v // 1024
+                    lo = 0xdc00 + v % 1024
+                    out.extend([hi // 256, hi % 256, lo // 256, lo % 256])
+            return (SymbolicBytes(out), len(string), None)
+
+        @classmethod
+        def _decode_chunk(cls, byts, start):
+            raise NotImplementedError
+
+    entry = Utf16BeStemEncoder.getregentry()
+
+    def search(name):
+        if name.replace('-', '_').lower() in ('crosshair_utf_16_be', 'crosshair_utf_16be', 'crosshair_utf16be', 'crosshair_utf16_be'):
+            return entry
+        return None
+    codecs.register(search)
+    orig_encode = StemEncoder.encode.__func__
+
+    def encode(cls, input, errors='strict'):
+        if errors != 'strict':
+            return orig_encode(cls, input, errors)
+        if not (isinstance(input, str) and isinstance(errors, str)):
+            raise TypeError
+        parts = []
+        idx = 0
+        n = len(input)
+        while idx < n:
+            out, idx, err = cls._encode_chunk(input, idx)
+            parts.append(out)
+            if err is not None:
+                raise UnicodeEncodeError(cls.encoding_name, '?', 0, 1, err.reason())
+        return b''.join(parts), idx
+    StemEncoder.encode = classmethod(encode)
+    StemEncoder._vf_patched = True
+
+
 def pycdlib_modules():
     import pycdlib  # noqa
     from pycdlib import dates, dr, eltorito, isohybrid, utils, rockridge, headervd, path_table_record, udf, inode
